@@ -259,7 +259,7 @@ func (s *Solver) run(c *Ctx, o *Obligation, q string, sliced bool) {
 		}
 	}
 	o.Status = "UNPROVED"
-	if last.answer == "error" || (nRuns > 0 && nErr == nRuns) {
+	if nRuns > 0 && nErr == nRuns {
 		o.Status = "ERROR"
 	}
 	o.Backend = last.backend
